@@ -3,12 +3,12 @@
 # Runs the registered check of property Cxx against a scratch worktree of /repo with the seeded change applied
 # (VF_REPO points the build at it; /repo itself is not touched; evidence and replay files go to /var/tmp/vf-seedtest-out).
 D=$(readlink -f "$1"); P=$2; T=${3:-quick}; shift 3
-W=/var/tmp/vf-seedtest
+W=${VF_SEEDTEST:-/var/tmp/vf-seedtest}
 [ -d $W ] || git -C /repo worktree add --detach $W HEAD >/dev/null 2>&1
 cd $W && git checkout -q -- . && git checkout -q --detach $(git -C /repo rev-parse HEAD) || exit 2
 git apply $D/patch.diff || { echo "patch does not apply"; exit 2; }
 cd /verif
-VF_REPO=$W VF_EVIDENCE_DIR=/var/tmp/vf-seedtest-out/evidence VF_OUT_DIR=/var/tmp/vf-seedtest-out/out python3 tools/check.py $P --tier $T "$@" 2>&1 | grep -v "^ENV" | grep -E "VIOLATION|violations=[1-9]|^  leg|^OK|ENGINE|KNOWN" | cut -c1-400
+VF_REPO=$W VF_EVIDENCE_DIR=$W-out/evidence VF_OUT_DIR=$W-out/out python3 tools/check.py $P --tier $T "$@" 2>&1 | grep -v "^ENV" | grep -E "VIOLATION|violations=[1-9]|^  leg|^OK|ENGINE|KNOWN" | cut -c1-400
 rc=${PIPESTATUS[0]}
 cd $W && git checkout -q -- .
 echo "try_seed $(basename $D) $P $T rc=$rc"
